@@ -436,7 +436,7 @@ func c1mImpl(src string) (ans string) {
 }
 
 func c1ModelOps(c *Cfg, r *Rng) {
-	n := c.Pick(3000, 20000)
+	n := c.Pick(2000, 20000)
 	g := &c1mgen{r: r}
 	for i := 0; i < n; i++ {
 		var e *c1mx
